@@ -5,7 +5,7 @@ C19 — helper lemmas (bit-level characterisations of the model's building block
 Property statements live in `Theorems.lean`.
 -/
 namespace ArrowModel.C19
-open ArrowModel.Generated.Buffer
+open ArrowModel.Generated.C19
 
 theorem testBit_u64 (x j : Nat) : (u64 x).testBit j = (decide (j < 64) && x.testBit j) := by
   unfold u64; rw [Nat.testBit_mod_two_pow]
